@@ -19,6 +19,10 @@ func init() {
 }
 
 func runC01(r *Run, p *Prog) {
+	// R6: the reply write (and the frame read before it) goes through the context-aware I/O template; a deadline left armed or not re-armed by one operation changes what a later call on the connection emits
+	siblingRules(r, p, "C17", []string{"D1", "D2", "D3"}, "R6")
+	// R7: dispatch on one connection is independent of other connections only if the Service mutex is never held across a handler or connection I/O
+	siblingRules(r, p, "C10", []string{"S6"}, "R7")
 	ro := DiscoverRoles(p)
 	T, cg := ro.T, ro.CG
 	if len(ro.ConnLoop) == 0 || ro.Handle == nil {
